@@ -1650,6 +1650,17 @@ def check_C18(tier, seed):
         else:
             b = rng.choice(["!int", "!none", "!str", "!tuple"])
         pairs.append((a, b))
+        # numbers that CPython hashes alike (ints are hashed modulo 2^61 - 1): equality must not go through hashes
+        w = a.split()
+        if w[0] in "FR" and len(w) > 2:
+            M61 = 2 ** 61 - 1
+            for j in (1, 2):
+                v = int(w[j])
+                for v2 in ({v % M61, v + M61, v + 2 * M61} - {v}):
+                    w2 = list(w)
+                    w2[j] = str(v2)
+                    if int(w2[1]) != int(w2[2]):
+                        pairs.append((a, " ".join(w2)))
     import rtrace  # noqa: F401  (workers import it; here only for the task format)
     api = core.pool().map(_pyk, [("action_api",) + tuple(acts[i:i + 50]) for i in range(0, len(acts), 50)])
     api = [ln for chunk in api for ln in chunk]
